@@ -12,6 +12,11 @@ pub assume_specification<T, A: core::alloc::Allocator>[VecDeque::<T, A>::front](
 pub assume_specification<T, A: core::alloc::Allocator>[VecDeque::<T, A>::back](v: &VecDeque<T, A>) -> (r: Option<&T>)
     ensures v@.len() == 0 ==> r is None, v@.len() > 0 ==> (r matches Some(x) && *x == v@[v@.len() - 1]);
 
+pub assume_specification<T, A: core::alloc::Allocator>[VecDeque::<T, A>::back_mut](v: &mut VecDeque<T, A>) -> (r: Option<&mut T>)
+    ensures
+        old(v)@.len() > 0 ==> r is Some,
+        r matches Some(x) ==> old(v)@.len() > 0 && *x == old(v)@[old(v)@.len() - 1] && final(v)@ == old(v)@.update(old(v)@.len() - 1, *final(x)),
+        r is None ==> final(v)@ == old(v)@ && old(v)@.len() == 0;
 pub open spec fn DOTC() -> Seq<u8> { seq![46u8] }
 pub open spec fn nontrivial(c: Seq<u8>) -> bool { c.len() > 0 && c != DOTC() }
 /// every saved directory is inside the root and close-on-exec (what do_resolve needs to hand one back)
